@@ -80,6 +80,81 @@ def tokens(events, values):
     return toks
 
 
+def concurrent_scripts(report, rng, pairs):
+    """Two scripts at once (what the web front end does with a background script): each one's output is its own.
+    Two ScriptJobs - two Machines - run as two threads under the deterministic scheduler, switching at every source line
+    of vm_io.py; every output event is tagged with the thread that produced it, and each script's events are validated
+    by TLC against Lang.tla from the initial state, exactly as if it had run alone."""
+    from bardolph.controller.script_job import ScriptJob
+    from harness import detsched, gen_lang, langcheck
+    records = []
+    for i in range(pairs):
+        recs = []
+        tries = 0
+        while len(recs) < 2 and tries < 40:
+            tries += 1
+            rec = gen_lang.make_record(0, lang_props.hash_seed(report.seed, 'c19pair', i * 50 + tries), 'print', 14)
+            if 'get ' not in rec['text'] and 'printf' in rec['text']:
+                recs.append(rec)
+        if len(recs) < 2:
+            continue
+        pop = recs[0]['pop']
+        recs[1] = dict(gen_lang.make_record(0, recs[1]['seed'], 'print', 14, pop=pop))
+        if 'get ' in recs[1]['text']:
+            continue
+        sched = detsched.Sched(detsched.RandomWalk(rng.randrange(2 ** 30), rng.choice([0.1, 0.3, 0.6])), trace_files=('vm_io.py',), max_steps=40000)
+        world = runner.World(pop)
+        tagged = []
+        world.rec.add = lambda *ev: tagged.append((getattr(sched.me(), 'tid', -1), tuple(ev)))
+        faults = {}
+        try:
+            jobs = []
+            for rec in recs:
+                job = ScriptJob()
+                job.load_string(rec['text'])
+                jobs.append(job)
+            if any(j.program is None for j in jobs):
+                continue
+            tids = []
+            for job in jobs:
+                tids.append(sched.spawn(job.execute, name='script').tid)
+            sched.run()
+            for level, msg in world.log.records:
+                if msg.startswith('Machine stopped due to'):
+                    faults[len(faults)] = msg
+        finally:
+            world.close()
+        if sched.exhausted:
+            continue
+        for rec, tid in zip(recs, tids):
+            mine = [ev for t, ev in tagged if t == tid]
+            try:
+                events = langcheck.encode_events(mine, faults.get(0) if faults else None, False)
+            except langcheck.Malformed:
+                continue
+            records.append(dict(rec, id=len(records), _events=events, _pair=[r['text'] for r in recs], _faults=list(faults.values())))
+    batch = [{'id': r['id'], 'prog': r['prog'], 'pop': r['pop'] or [], 'rank': r['rank'], 'strictf': False, 'budget': 4000,
+              'rawturn': 65536, 'ev': r['_events']} for r in records]
+    if not batch:
+        return
+    results = tlc.run_sharded('Lang', tlc.split(batch, 16), timeout=900)
+    report.add_tlc(results)
+    for res in results:
+        if res.exit != 0:
+            raise tlc.MachineryError('Lang (concurrent scripts): %s' % res.violation)
+        for item in res.printed:
+            if 'printf' in item:
+                continue
+            rec = records[item['id']]
+            if item['ok']:
+                report.coverage['traces_validated_against_impl'] += 1
+            elif not lang_props.is_skip(item):
+                report.violation('concurrent:' + lang_props.classify(dict(item, stage='tlc')),
+                                 'a script running next to another one: %s (%s)' % (item['why'], '; '.join(rec['_faults'])[:200]),
+                                 {'text': rec['text'], 'other': [t for t in rec['_pair'] if t != rec['text']][:1], 'pop': rec['pop']})
+    report.notes['concurrent_script_runs'] = len(records)
+
+
 def run(report, replay=None):
     if replay and 'seed' in replay.get('replay', {}) and replay['replay'].get('stage') != 'stdout':
         return lang_props.replay_record(report, replay)
@@ -141,6 +216,8 @@ def run(report, replay=None):
         rec, values, toks, text = index[batch[0]['id']]
         report.sample({'stdout': text[:300], 'tokens': toks[:40]})
     report.coverage['evaluations'] += len(batch)
+    import random as _random
+    concurrent_scripts(report, _random.Random(report.seed + 19), 120 if report.tier == 'thorough' else 24)
     report.assumptions += lang_props.ASSUMPTIONS + [
         'the text of a value is Python\'s str()/str.format of the value the specification determines',
         'not demanded: a line break at the very end after a printf whose text ends in one; a separator after such a printf']
